@@ -108,7 +108,8 @@ def run_parallel(exe, common_args, total, nproc=16, timeout=600, env_extra=None,
         f, c = job
         cmd = [exe] + [str(a) for a in common_args] + ["--first", str(f), "--count", str(c)]
         env = dict(os.environ)
-        env.update(ENV_SAN)
+        if not tsan_log_dir:
+            env.update(ENV_SAN)
         if tsan_log_dir:
             os.makedirs(tsan_log_dir, exist_ok=True)
             lp = os.path.join(tsan_log_dir, "tsan.%d" % f)
